@@ -156,9 +156,9 @@ def _body_paths(check):
             if (o.status == "violation" and o.key in ("dt-tiled", "col-scaling", "varmajor")) or o.status == "undecided":
                 o.rule = "LAYOUT-AGREE"
                 kept.append(o)
+        check.obs[n0:] = kept
         if not kept:
             check.ok("LAYOUT-AGREE", c.qualname, "every term of the implicit system uses the interleaved packing (unknown q + neq*i is variable q of cell i)", c.loc())
-        check.obs[n0:] = kept + check.obs[len(check.obs):]
     from . import c15
     if check.guarded("LAYOUT-AGREE", "modeldisc.fvm2dcart", lambda: c15.layout_agree(check)):
         check.guarded("SEAM-2D", "modeldisc.fvm2dcart.calc_bc_grad", lambda: c15.seam_2d(check))
